@@ -25,6 +25,7 @@ McQStr == {"?x", "?y", "?q"}
 McBadJs == {"syntax error("}
 McActs == [c \in {"1", "2", "3", "4", "5"} |-> [kind |-> "num", tag |-> c]]
 McCondCodes == <<>>
+McOneShot == {"+1h"}
 
 O1(k, v) == Obj(k :> v)
 O2(k1, v1, k2, v2) == Obj((k1 :> v1) @@ (k2 :> v2))
